@@ -52,6 +52,7 @@ package cla
 //@ ensures !ce.conv.IsPermanent() && ce.conv.$starts == old(ce.conv.$starts) + 1 && !ce.conv.$lastOK && ce.conv.$lastRetry && old(ce.ttl) > 0 ==> ce.ttl == old(ce.ttl) - 1
 //@ ensures ce.conv.IsPermanent() && ce.conv.$starts == old(ce.conv.$starts) + 1 && !ce.conv.$lastOK && ce.conv.$lastRetry ==> retry && ce.ttl >= 0
 //@ ensures successful ==> ce.stopSyn != nil && !closed(ce.stopSyn) && ce.stopAck != nil && !closed(ce.stopAck)
+//@ ensures old(ce.ttl) >= 0 && !successful ==> ce.ttl >= 0
 
 // govc:func (*convergenceElem).deactivate property C16
 //@ requires ce.conv != nil && ttl >= 0
@@ -71,3 +72,56 @@ package cla
 // govc:trusted (*Manager).Sender
 //@ assigns nothing
 //@ ensures forall k int :: 0 <= k && k < len(css) ==> css[k] != nil
+
+// ---- registry steps (C16) ----
+
+// govc:trusted (*Manager).Receiver
+//@ assigns nothing
+//@ ensures forall k int :: 0 <= k && k < len(crs) ==> crs[k] != nil
+
+// govc:iface ConvergenceReceiver.GetEndpointID
+//@ assigns nothing
+//@ ensures result == self.GetEndpointID()
+
+// Element invariant for a registry entry: listed active (ttl < 0) exactly while its adapter is running, and an active
+// element owns an open stop channel.
+// govc:spec elemOK(ce *convergenceElem) bool = ce != nil && ce.conv != nil && ((ce.ttl < 0) == ce.conv.$running) && (ce.ttl < 0 ==> ce.stopSyn != nil && !closed(ce.stopSyn))
+
+// Registering an address twice keeps a single instance: an active entry is left alone (no second start), a known but
+// inactive entry is re-activated as the same element (its retry budget and identity survive), only an unknown
+// address gets a new element; whatever is in the registry afterwards satisfies the element invariant.
+// govc:func (*Manager).registerConvergence property C16
+//@ requires conv != nil
+//@ requires smhas(manager.convs, conv.Address()) ==> is(smget(manager.convs, conv.Address()), *convergenceElem) && elemOK(smget(manager.convs, conv.Address()).(*convergenceElem))
+//@ requires !smhas(manager.convs, conv.Address()) ==> !conv.$running
+//@ requires manager.queueTtl >= 0
+//@ ensures old(smhas(manager.convs, conv.Address())) ==> smhas(manager.convs, conv.Address()) && smget(manager.convs, conv.Address()) == old(smget(manager.convs, conv.Address()))
+//@ ensures old(smhas(manager.convs, conv.Address())) && old(smget(manager.convs, conv.Address()).(*convergenceElem).ttl) < 0 ==> smget(manager.convs, conv.Address()).(*convergenceElem).ttl == old(smget(manager.convs, conv.Address()).(*convergenceElem).ttl) && smget(manager.convs, conv.Address()).(*convergenceElem).conv.$starts == old(smget(manager.convs, conv.Address()).(*convergenceElem).conv.$starts)
+//@ ensures smhas(manager.convs, conv.Address()) ==> is(smget(manager.convs, conv.Address()), *convergenceElem) && smget(manager.convs, conv.Address()).(*convergenceElem) != nil && smget(manager.convs, conv.Address()).(*convergenceElem).conv != nil
+//@ ensures smhas(manager.convs, conv.Address()) ==> ((smget(manager.convs, conv.Address()).(*convergenceElem).ttl < 0) == smget(manager.convs, conv.Address()).(*convergenceElem).conv.$running)
+//@ ensures smhas(manager.convs, conv.Address()) && smget(manager.convs, conv.Address()).(*convergenceElem).ttl < 0 ==> smget(manager.convs, conv.Address()).(*convergenceElem).stopSyn != nil && !closed(smget(manager.convs, conv.Address()).(*convergenceElem).stopSyn)
+//@ ensures !old(smhas(manager.convs, conv.Address())) && smhas(manager.convs, conv.Address()) ==> smget(manager.convs, conv.Address()).(*convergenceElem).conv == conv
+//@ loop 0 invariant 0 <= rangeindex + 1
+
+// Unregistering stops the adapter if it is the registered instance and forgets the address; another instance under
+// the same address, or an unknown address, changes nothing.
+// govc:func (*Manager).unregisterConvergence property C16
+//@ requires conv != nil && manager.queueTtl >= 0
+//@ requires smhas(manager.convs, conv.Address()) ==> is(smget(manager.convs, conv.Address()), *convergenceElem) && elemOK(smget(manager.convs, conv.Address()).(*convergenceElem))
+//@ ensures old(smhas(manager.convs, conv.Address())) && old(smget(manager.convs, conv.Address()).(*convergenceElem).conv) == conv ==> !smhas(manager.convs, conv.Address()) && old(smget(manager.convs, conv.Address()).(*convergenceElem)).ttl >= 0
+//@ ensures old(smhas(manager.convs, conv.Address())) && old(smget(manager.convs, conv.Address()).(*convergenceElem).conv) != conv ==> smhas(manager.convs, conv.Address()) && smget(manager.convs, conv.Address()) == old(smget(manager.convs, conv.Address())) && smget(manager.convs, conv.Address()).(*convergenceElem).ttl == old(smget(manager.convs, conv.Address()).(*convergenceElem).ttl)
+//@ ensures !old(smhas(manager.convs, conv.Address())) ==> !smhas(manager.convs, conv.Address())
+
+// The iteration callbacks of Sender()/Receiver(): every registry element is visited (the callback never stops the
+// iteration) and contributes its adapter exactly if it is active.
+// govc:func (*Manager).Sender$1 property C16
+//@ requires is(convElem, *convergenceElem) && convElem.(*convergenceElem) != nil
+//@ ensures result
+//@ ensures convElem.(*convergenceElem).ttl >= 0 ==> len(css) == old(len(css))
+//@ ensures len(css) == old(len(css)) || len(css) == old(len(css)) + 1
+
+// govc:func (*Manager).Receiver$1 property C16
+//@ requires is(convElem, *convergenceElem) && convElem.(*convergenceElem) != nil
+//@ ensures result
+//@ ensures convElem.(*convergenceElem).ttl >= 0 ==> len(crs) == old(len(crs))
+//@ ensures len(crs) == old(len(crs)) || len(crs) == old(len(crs)) + 1
